@@ -150,6 +150,12 @@ var stageTables = map[string][]stageRule{
 	"I7d":   {{"must be greater", 71}, {"disclosure salt type", 72}, {"disclosure name type", 73}},
 	"I7dig": {{"get disclosure digests", 78}},
 	"I7cnf": {{"must be present in SD-JWT", 76}, {"must be an object", 77}},
+	"I10": {{"credential type of unknown structure", 101}, {"vc types:", 101}, {"credential context of unknown type", 102},
+		{"violated type constraint", 103}, {"violated @context constraint", 104}},
+	"I11": {{"JWT of compacted JWS form", 111}, {"invalid JWS compact format", 41}, {"alg JWS header is not defined", 42},
+		{"invalid b64 header", 43}, {"is not DID", 44}, {"has no key fragment", 45}, {"alg header is not defined", 112},
+		{"invalid typ header format", 113}, {"invalid typ header", 114}, {"typ is not JWT", 115},
+		{"nested JWT is not supported", 116}},
 	"I6f":   {{"unknown key encoding", 61}, {"code exceeds maximum size", 64}, {"invalid bbs+ public key", 66}},
 }
 
@@ -492,6 +498,14 @@ func (r *runner) coqCase(sd *Seed, t Target, c Case, in []byte, o Outcome) strin
 
 		as, ok = coqAssoc(m)
 		input, table = "(I7cnf "+as+")", "I7cnf"
+	case t.EP == "jwt.Parse":
+		input, ok = e4View(in)
+		input = strings.Replace(input, "(I4 ", "(I11 ", 1)
+		table = "I11"
+	case sd.Layer == "E10" && (t.EP == "verifiable.ParseCredential(base context)" ||
+		t.EP == "verifiable.ParseCredential(no proof check)" || t.EP == "verifiable.ParseCredential(validation off)"):
+		input, ok = e10View(in, t.EP == "verifiable.ParseCredential(base context)")
+		table = "I10"
 	case t.EP == "kmsdidkey.EncryptionPubKeyFromDIDKey":
 		input, ok = e6View(in, true)
 		table = "I6"
@@ -515,7 +529,16 @@ func (r *runner) coqCase(sd *Seed, t Target, c Case, in []byte, o Outcome) strin
 		r.coqLeft[key] = k + 1
 		r.coqMu.Unlock()
 
-		if k%r.stride(c.Gen) != 0 {
+		st := r.stride(c.Gen)
+
+		// the members the E10 / E11 models read: every mutation of them goes through Coq
+		if (table == "I10" && (strings.Contains(c.Path, "type") || strings.Contains(c.Path, "@context"))) ||
+			(table == "I11" && c.Gen == "closure" && (strings.Contains(c.Path, "typ") || strings.Contains(c.Path, "cty") ||
+				strings.Contains(c.Path, "alg") || strings.Contains(c.Path, "kid"))) {
+			st = 1
+		}
+
+		if k%st != 0 {
 			return ""
 		}
 	}
@@ -615,4 +638,39 @@ func e7DigestsView(in []byte) (string, bool) {
 	}
 
 	return "(I7dig " + as + " [" + strings.Join(items, "; ") + "])", true
+}
+
+// e10View hands the model the "type" and "@context" members of a JSON credential as encoding/json decodes them.
+func e10View(in []byte, baseMode bool) (string, bool) {
+	var m map[string]interface{}
+	if len(in) == 0 || in[0] != '{' || json.Unmarshal(in, &m) != nil {
+		return "", false
+	}
+
+	// encoding/json matches struct fields case-insensitively: a member spelled differently is not what the view reads
+	for k := range m {
+		if (strings.EqualFold(k, "type") && k != "type") || (strings.EqualFold(k, "@context") && k != "@context") {
+			return "", false
+		}
+	}
+
+	member := func(k string) (string, bool) {
+		v, present := m[k]
+		if !present || v == nil {
+			return "None", true
+		}
+
+		js, ok := coqJSON(v)
+
+		return "(Some " + js + ")", ok
+	}
+
+	ty, ok1 := member("type")
+	cx, ok2 := member("@context")
+
+	if !ok1 || !ok2 {
+		return "", false
+	}
+
+	return fmt.Sprintf("(I10 %s %s %s)", coqBool(baseMode), ty, cx), true
 }
